@@ -55,20 +55,29 @@ theorem C03_second_round_trip (fuel : Nat) (t : Ty) (v : Val) (a : Nat)
 
 /-! ### findings: successfully decoded values that cannot be re-encoded, or re-encode to something else -/
 
-/-- an extension object with a type id the registry does not know (`ns=0;i=99`) decodes with `Value == nil`
-    and a non-zero mask; `Encode` then calls `ua.Encode(nil)`: panic -/
-theorem C03_finding_extobj_unknown_type :
+/-- repaired (was finding C03.extobj-nil-value): an extension object with a type id the registry does not know
+    (`ns=0;i=99`) decodes with `Value == nil` and a non-zero mask; it is re-encoded with a null body (the unknown body
+    itself is not kept) and decodes to the same value — `Encode` used to panic in `ua.Encode(nil)`.  Such values are
+    now inside the guard of `C03_stable_partial`. -/
+theorem C03_fixed_extobj_unknown_type :
     decode env 5 .extObj ⟨[1, 0, 99, 0, 1, 2, 0, 0, 0, 0xaa, 0xbb], 0⟩
       = .ok (.extObj 1 (some ⟨some ⟨1, 0, 99, none, none⟩, [], 0⟩) "" .nil) ⟨[], 0⟩ ∧
-    encode env 5 .extObj (.extObj 1 (some ⟨some ⟨1, 0, 99, none, none⟩, [], 0⟩) "" .nil) = .error .panicNilValue :=
-  ⟨rfl, rfl⟩
+    encode env 5 .extObj (.extObj 1 (some ⟨some ⟨1, 0, 99, none, none⟩, [], 0⟩) "" .nil)
+      = .ok [1, 0, 99, 0, 1, 0xff, 0xff, 0xff, 0xff] ∧
+    decode env 5 .extObj ⟨[1, 0, 99, 0, 1, 0xff, 0xff, 0xff, 0xff], 0⟩
+      = .ok (.extObj 1 (some ⟨some ⟨1, 0, 99, none, none⟩, [], 0⟩) "" .nil) ⟨[], 0⟩ ∧
+    wt env 5 .extObj (.extObj 1 (some ⟨some ⟨1, 0, 99, none, none⟩, [], 0⟩) "" .nil) = true :=
+  ⟨rfl, rfl, rfl, rfl⟩
 
-/-- the same for a known type id with body length 0 (or −1): decoded as "no value", not re-encodable -/
-theorem C03_finding_extobj_empty_body :
+/-- repaired: the same for a known type id sent with body length 0 -/
+theorem C03_fixed_extobj_empty_body :
     decode env 5 .extObj ⟨[1, 0, 121, 0, 1, 0, 0, 0, 0], 0⟩
       = .ok (.extObj 1 (some ⟨some ⟨1, 0, 121, none, none⟩, [], 0⟩) "" .nil) ⟨[], 0⟩ ∧
-    encode env 5 .extObj (.extObj 1 (some ⟨some ⟨1, 0, 121, none, none⟩, [], 0⟩) "" .nil) = .error .panicNilValue :=
-  ⟨rfl, rfl⟩
+    encode env 5 .extObj (.extObj 1 (some ⟨some ⟨1, 0, 121, none, none⟩, [], 0⟩) "" .nil)
+      = .ok [1, 0, 121, 0, 1, 0xff, 0xff, 0xff, 0xff] ∧
+    decode env 5 .extObj ⟨[1, 0, 121, 0, 1, 0xff, 0xff, 0xff, 0xff], 0⟩
+      = .ok (.extObj 1 (some ⟨some ⟨1, 0, 121, none, none⟩, [], 0⟩) "" .nil) ⟨[], 0⟩ :=
+  ⟨rfl, rfl, rfl⟩
 
 /-- an extension object of a registered type without fields (i=121, `DataTypeDefinition`) decodes to a value whatever
     its body holds, re-encodes with body length 0, and that decodes to `Value == nil` -/
